@@ -54,7 +54,7 @@ def const_arm_groups(g, fn, const_ty, which=0):
     by = defaultdict(list)
     for v, tgt in t['v']:
         by[tgt].append(names.get(v, '0x%x' % v))
-    return sw, t, by
+    return sw, t, by, max(len(names), len(t['v']))
 
 
 def enum_arm_groups(g, fn, enum_path, which=0):
@@ -67,7 +67,7 @@ def enum_arm_groups(g, fn, enum_path, which=0):
     rest = [names[v] for v in names if v not in listed]
     if rest and fn.term(t['o'])['k'] != 'unreachable':
         by[t['o']] += ['*wildcard*:' + ','.join(sorted(rest))]
-    return sw, t, by
+    return sw, t, by, len(names)
 
 
 def extract(g, spec):
@@ -96,10 +96,26 @@ def extract(g, spec):
     ef = E.Eff(g, extra_atoms=spec.get('extra_atoms'))
     if kind == 'fneff':
         return {'*': E.seqs_to_json(ef.paths(fn, 0))}
+    if kind == 'constret':
+        # per variant: the named constants (DW_FORM_..., DW_OP_...) that flow into the result
+        sw, t, by, nvals = enum_arm_groups(g, fn, spec['enum'], which)
+        for tgt, names in by.items():
+            region = A.arm_blocks(fn, sw, tgt, nvals)
+            consts = set()
+            for b in region:
+                for st in fn.stmts(b):
+                    if st[0] != 'a':
+                        continue
+                    for o in rv_operands_all(st[2]):
+                        if o[0] == 'k' and isinstance(o[2], dict) and o[2].get('named') and not str(o[2]['named']).startswith('promoted'):
+                            consts.add(o[2]['named'].split('::')[-1])
+            for n in names:
+                out[n] = sorted(consts)
+        return out
     if kind in ('eff', 'sizeeff'):
-        sw, t, by = enum_arm_groups(g, fn, spec['enum'], which)
+        sw, t, by, nvals = enum_arm_groups(g, fn, spec['enum'], which)
     elif kind in ('consteff', 'constarms'):
-        sw, t, by = const_arm_groups(g, fn, spec['const_ty'], which)
+        sw, t, by, nvals = const_arm_groups(g, fn, spec['const_ty'], which)
     else:
         raise ValueError(kind)
     result_local = 0
@@ -107,7 +123,7 @@ def extract(g, spec):
         # the local that receives the match result: assigned in most arm regions
         cnt = Counter()
         for tgt in by:
-            region = A.arm_blocks(fn, sw, tgt)
+            region = A.arm_blocks(fn, sw, tgt, nvals)
             seen = set()
             for b in region:
                 for st in fn.stmts(b):
@@ -118,8 +134,43 @@ def extract(g, spec):
         cands = [l for l, c in cnt.most_common() if c >= max(2, len(by) // 2) and fn.ty(l) in ('usize', 'u64', 'core::result::Result<usize, write::Error>')]
         if cands:
             result_local = cands[0]
+    if kind == 'consteff' and spec.get('eq_consts_prefix'):
+        # `if x == CONST.0 { ... }` tests outside the main match (opcodes whose operand is in the opcode byte)
+        pre = spec['eq_consts_prefix']
+        for bi in sorted(fn.reach):
+            tm = fn.term(bi)
+            if tm['k'] != 'switch' or g.strs[tm['ty']] != 'bool':
+                continue
+            d = tm['d']
+            if d[0] not in ('c', 'm') or len(d[1]) != 1:
+                continue
+            sd = fn.single_def(d[1][0])
+            if sd is None or sd[1] == 'term' or sd[2][0] != 'bin' or sd[2][1] != 'Eq':
+                continue
+            cname = None
+            for o in (sd[2][2], sd[2][3]):
+                if o[0] in ('c', 'm') and len(o[1]) == 2:
+                    sdo = fn.single_def(o[1][0])
+                    if sdo and sdo[1] != 'term' and sdo[2][0] == 'use' and sdo[2][1][0] == 'k' and isinstance(sdo[2][1][2], dict):
+                        nm = (sdo[2][1][2].get('named') or '').split('::')[-1]
+                        if nm.startswith(pre):
+                            cname = nm
+                elif o[0] in ('c', 'm') and len(o[1]) == 1:
+                    sdo = fn.single_def(o[1][0])
+                    if sdo and sdo[1] != 'term' and sdo[2][0] == 'use' and sdo[2][1][0] in ('c', 'm') and len(sdo[2][1][1]) == 2:
+                        sd2 = fn.single_def(sdo[2][1][1][0])
+                        if sd2 and sd2[1] != 'term' and sd2[2][0] == 'use' and sd2[2][1][0] == 'k' and isinstance(sd2[2][1][2], dict):
+                            nm = (sd2[2][1][2].get('named') or '').split('::')[-1]
+                            if nm.startswith(pre):
+                                cname = nm
+            if cname is None:
+                continue
+            true_t = [tg for v, tg in tm['v'] if v != 0] or [tm['o']]
+            tt = true_t[0]
+            region = A._dom_region(fn, tt)
+            out[cname] = E.seqs_to_json(ef.paths(fn, tt, region))
     for tgt, names in by.items():
-        region = A.arm_blocks(fn, sw, tgt)
+        region = A.arm_blocks(fn, sw, tgt, nvals)
         if kind == 'constarms':
             summ = A.ArmSummarizer(g)
             w, c, e = summ.summarize_blocks(fn, region, spec.get('receiver', 1))
@@ -131,6 +182,11 @@ def extract(g, spec):
         for n in names:
             out[n] = row
     return out
+
+
+def rv_operands_all(rv):
+    from .facts import rv_operands
+    return rv_operands(rv)
 
 
 def size_bags(fn, region, result_local=0):
@@ -231,17 +287,22 @@ def size_vs_write(rep, g, rule, size_spec, write_spec, skip_first_atom=False):
         sb = set()
         ok = True
         for bag in sz[v]:
+            bag = [('ADDR*1' if x == '?call:address_size*1' else x) for x in bag]
             if any(isinstance(x, str) and x.startswith('?') for x in bag):
                 ok = False
             else:
-                sb.add((bag[0], tuple(bag[1:])))
+                sb.add((bag[0], tuple(sorted(bag[1:]))))
         wb = set()
         for seq in wr[v]:
             if any(a.startswith('*') or a.startswith('CALL') for a in seq):
                 ok = False
                 continue
             c, sym = E.bag_of(seq)
-            sym = tuple('%s*%d' % kv for kv in sym)
+            # offset-sized fields: write_offset / write_reference / write_udata(.., word size) all count as WORD
+            norm = Counter()
+            for k, n_ in sym:
+                norm[{'OFF': 'WORD', 'BN': 'WORD'}.get(k, k)] += n_
+            sym = tuple('%s*%d' % kv for kv in sorted(norm.items()))
             wb.add((c, sym))
         rows[v] = (ok, sb, wb)
     # constant offset between the two models (e.g. the opcode byte added outside the match)
@@ -260,8 +321,144 @@ def size_vs_write(rep, g, rule, size_spec, write_spec, skip_first_atom=False):
             continue
         n += 1
         sb2 = {(c + delta, s) for c, s in sb}
+        if sb2 != wb:
+            # a write of symbolic width (write_udata(val, size) / write_reference(.., size)) was counted as WORD;
+            # the size model may legitimately name the address size for it (DW_FORM_ref_addr in DWARF 2)
+            def widen(bags):
+                out = set()
+                for c, s_ in bags:
+                    cnt = Counter()
+                    for item in s_:
+                        k, n_ = item.rsplit('*', 1)
+                        cnt['WORD' if k == 'ADDR' else k] += int(n_)
+                    out.add((c, tuple('%s*%d' % kv for kv in sorted(cnt.items()))))
+                return out
+            if widen(sb2) == widen(wb) and any('ADDR' in str(x) for x in sb2):
+                rep.ok(rule, key, 'size %s == write %s up to the symbolic width of the sized write' % (sorted(sb), sorted(wb)), fn.loc(),
+                       why='bag equality modulo symbolic field width (exact widths are pinned by the frozen rows)')
+                continue
         if sb2 == wb:
             rep.ok(rule, key, 'size %s == write %s (offset %d)' % (sorted(sb), sorted(wb), delta), fn.loc(), why='bag equality')
         else:
             rep.bad(rule, key, 'size model %s (+%d) differs from emitted bytes %s' % (sorted(sb), delta, sorted(wb)), fn.loc())
+    return n
+
+
+# ------------------------------------------------------------------------------------------
+# K1: writer arm  <->  reader arm for the same opcode / form constant
+
+def _compatible(w, r, b1_is_uleb=False):
+    """writer atom sequence vs reader atom sequence (both without the opcode byte)"""
+    w = list(w)
+    r = list(r)
+    # string: BYTES + NUL byte  <->  CSTR
+    def norm(seq, side):
+        out = []
+        i = 0
+        while i < len(seq):
+            a = seq[i]
+            if side == 'w' and a == 'BYTES' and i + 1 < len(seq) and seq[i + 1] == 'B1':
+                out.append('CSTR')
+                i += 2
+                continue
+            out.append(a)
+            i += 1
+        return out
+    w, r = norm(w, 'w'), norm(r, 'r')
+    if len(w) != len(r):
+        return False
+    for a, b in zip(w, r):
+        if a == b:
+            continue
+        fixed = {'B1', 'B2', 'B3', 'B4', 'B8', 'B16'}
+        if a == 'BN' and (b in fixed or b in ('OFFN', 'BN')):
+            continue
+        if b in ('BN', 'OFFN') and a in fixed:
+            continue
+        if a in ('BYTES', 'DATA', 'CALL:write', 'EXPR', 'LEXPR') and b in ('BYTES', 'DATA'):
+            continue
+        if a == 'BN' and b in ('OFF', 'ADDR'):
+            continue    # placeholder written with write_udata and patched by a fix-up (converse direction: note only)
+        if a == 'B1' and b == 'ULEB' and b1_is_uleb:
+            continue    # single-byte ULEB literal (base type 0)
+        if a == 'BYTES' and b == 'ULEB' and b1_is_uleb:
+            continue    # ULEB pre-encoded into a buffer (its length is needed first)
+        if a == 'OFF' and b == 'OFFN':
+            continue
+        if a == 'EH' and b in ('EH', 'ADDR'):
+            continue
+        return False
+    return True
+
+
+def named_consts_per_arm(g, spec, prefix):
+    """variant -> named constants with the given prefix used in the variant's arm"""
+    fn = g.fn(spec['fn'])
+    sw, t, by, nvals = enum_arm_groups(g, fn, spec['enum'], spec.get('which', 0))
+    out = {}
+    for tgt, names in by.items():
+        region = A.arm_blocks(fn, sw, tgt, nvals)
+        consts = set()
+        for b in region:
+            for st in fn.stmts(b):
+                if st[0] != 'a':
+                    continue
+                for o in rv_operands_all(st[2]):
+                    if o[0] == 'k' and isinstance(o[2], dict) and o[2].get('named'):
+                        nm = o[2]['named'].split('::')[-1]
+                        if nm.startswith(prefix):
+                            consts.add(nm)
+            tm = fn.term(b)
+            if tm['k'] == 'call':
+                for o in tm['a']:
+                    if o[0] == 'k' and isinstance(o[2], dict) and o[2].get('named'):
+                        nm = o[2]['named'].split('::')[-1]
+                        if nm.startswith(prefix):
+                            consts.add(nm)
+        for n in names:
+            out[n] = sorted(consts)
+    return out
+
+
+def k1_pairing(rep, g, rule, writer_spec, reader_specs, prefix, strip_opcode=True, consts_from=None, skip_variants=(),
+               strip_prefix=None, b1_is_uleb_for=()):
+    """For every writer variant: each emitted operand sequence (opcode byte stripped) must be what the
+    reader consumes for one of the opcode/form constants the arm uses, and a relocatable writer atom
+    (OFF/ADDR/EH) must meet a relocatable reader atom."""
+    rep.rule(rule, 'writer <-> reader pairing: per %s variant, every emitted operand sequence equals the operand sequence the reader '
+             'consumes for one of the %s* constants the arm emits (relocatable atoms pair with relocatable atoms)' % (writer_spec['enum'].split('::')[-1], prefix))
+    wrows = extract(g, writer_spec)
+    rrows = {}
+    for rs in reader_specs:
+        rrows.update(extract(g, rs))
+    consts = consts_from if consts_from is not None else named_consts_per_arm(g, writer_spec, prefix)
+    fn = g.fn(writer_spec['fn'])
+    n = 0
+    for v in sorted(wrows):
+        if v in skip_variants or v.startswith('*'):
+            continue
+        cs = [c for c in consts.get(v, []) if c in rrows]
+        seqs = [s_ for s_ in wrows[v] if not any(a.startswith('*') for a in s_)]
+        key = '%s|%s' % (writer_spec['id'], v)
+        if not cs:
+            rep.ok(rule, key, 'no reader row for constants %s (operand encoded in the opcode byte or writer-only form)' % consts.get(v, []),
+                   fn.loc(), why='not comparable', nontrivial=False)
+            continue
+        n += 1
+        def body_of(s_, c):
+            if strip_prefix and c.startswith(strip_prefix[0]) and s_[:len(strip_prefix[1])] == strip_prefix[1]:
+                return s_[len(strip_prefix[1]):]
+            return s_[1:] if strip_opcode and s_ and s_[0] == 'B1' else s_
+        full = seqs
+        b1u = v in b1_is_uleb_for
+        bad = [s_ for s_ in full if not any(_compatible(body_of(s_, c), r, b1u) for c in cs for r in rrows[c])]
+        unmatched = [c for c in cs if not any(_compatible(body_of(s_, c), r, b1u) for s_ in full for r in rrows[c])]
+        seqs = full
+        if bad:
+            rep.bad(rule, key, 'writer emits %s, but the reader consumes %s for %s' % (bad, {c: rrows[c] for c in cs}, cs), fn.loc())
+        elif unmatched and seqs:
+            rep.bad(rule, key, 'writer arm uses %s but emits no operand sequence the reader accepts for it (%s vs %s)'
+                    % (unmatched, seqs, {c: rrows[c] for c in unmatched}), fn.loc())
+        else:
+            rep.ok(rule, key, 'writer %s pairs with reader rows of %s' % (seqs, cs), fn.loc(), why='atom-wise compatible')
     return n
